@@ -112,7 +112,14 @@ func (p *graphqlWS) decode(raw incomingMessage) (*WireMessage, error) {
 		if raw.Payload != nil {
 			var resp common.ExecutionResult
 			if err := json.Unmarshal(raw.Payload, &resp); err != nil {
-				return nil, fmt.Errorf("unmarshal data payload: %w", err)
+				if raw.ID == "" {
+					return nil, fmt.Errorf("unmarshal data payload: %w", err)
+				}
+				// The frame is well-formed and names its subscription: the fault is that subscription's
+				// alone. It ends with an error; the other subscriptions of the connection go on.
+				msg.Type = MessageError
+				msg.Err = fmt.Errorf("unmarshal data payload: %w", err)
+				return msg, nil
 			}
 			msg.Payload = &resp
 		}
